@@ -164,11 +164,10 @@ Definition tstep (fx : bool) (t : nat) (s : shared) (th : thr) : option (shared 
   | Waiting => if memN t (waiters s) then None else Some (s, set_pc th WHead)
   | WDone => if memZ (myid th) (errs s) then Some (ret s t th RErrReported) else Some (s, set_pc th S402)
   | S402 => if fx && negb (elected th) then Some (ret s t th ROk) else Some (s, set_pc th S304)
-  | S304 => match pending s with
-            | [] => Some (ret (sh_steal s (elected th)) t th ROk)
-            | _ => Some (sh_drain s t (elected th && negb (memZ (myid th) (pending s))),
-                         set_batch th (pending s))
-            end
+  | S304 => if nonempty (pending s)
+            then Some (sh_drain s t (elected th && negb (memZ (myid th) (pending s))),
+                       set_batch th (pending s))
+            else Some (ret (sh_steal s (elected th)) t th ROk)
   | S404 => Some (sh_write s (op_wfail (cur th)) (batch th),
                   set_written th (write_ok (op_wfail (cur th)) (batch th)))
   | S403 => Some (s, set_pc th (if wok th then MarkC (batch th) else MarkF1 (batch th)))
